@@ -260,6 +260,12 @@ func RunChild(self string, spec *ChildSpec, specPath, crash string, yield string
 	}
 }
 
+// WriteSpec stores a child spec as JSON.
+func WriteSpec(spec *ChildSpec, path string) {
+	b, _ := json.Marshal(spec)
+	os.WriteFile(path, b, 0644)
+}
+
 // ReadProfile parses the "site count" lines a child dumped.
 func ReadProfile(path string) map[string]int {
 	m := map[string]int{}
